@@ -72,6 +72,37 @@ class _O:
     def ite(self, c, a, b):
         return i_ite(c, a, b)
 
+    def u(self, d, i):
+        x = d.items[i]
+        return x if isinstance(x, int) else SymInt.from_unsigned(unit_term(x))
+
+    def name_field_ok(self, f):
+        """1..32 bytes of valid UTF-8 without embedded/trailing NUL garbage: text then NUL padding"""
+        from shadow.utf8 import utf8_valid
+        from shadow.values import unit_eq
+
+        items = f.items
+        n = len(items)
+        # zero-padded: once a NUL appears every later byte is NUL; first byte is not NUL
+        conds = [b_not(unit_eq(items[0], 0))]
+        for k in range(1, n):
+            conds.append(b_implies(unit_eq(items[k - 1], 0), unit_eq(items[k], 0)))
+        conds.append(utf8_valid(items))
+        return b_and(*conds)
+
+    def ascii_field_ok(self, f):
+        import z3 as _z
+        from shadow.values import mk_bool
+
+        cs = []
+        for x in f.items:
+            if isinstance(x, int):
+                cs.append(32 < x < 127)
+            else:
+                t = unit_term(x)
+                cs.append(mk_bool(_z.And(_z.UGT(t, 32), _z.ULT(t, 127))))
+        return b_and(*cs)
+
     def sig_ok(self, frame):
         from spec.frames import signature
 
